@@ -23,6 +23,16 @@ func c05newKey() c05key {
 	return c05key{priv, id}
 }
 
+// c05newHashedKey: a key whose peer ID is a hash of the key and does not embed
+// it (ECDSA/RSA): the verifier cannot extract the key from the ID
+func c05newHashedKey() c05key {
+	priv, pub, err := crypto.GenerateECDSAKeyPair(rand.Reader)
+	verif_Assume(err == nil)
+	id, err := peer.IDFromPublicKey(pub)
+	verif_Assume(err == nil)
+	return c05key{priv, id}
+}
+
 // a short valid CID (CIDv1, raw, identity multihash of one symbolic byte)
 func c05link(label string) ipld.Link {
 	c, err := cid.Cast([]byte{0x01, 0x55, 0x00, 0x01, verif_U8(label)})
@@ -150,6 +160,10 @@ func VerifC05_SignVerifyExtended() {
 		}
 	}
 	p := &ad.ExtendedProvider.Providers[xi]
+	if verif_Bool("mutateMainProvidersEntry") {
+		// the main provider's own entry is signed like every other entry
+		p = &ad.ExtendedProvider.Providers[1-xi]
+	}
 	switch verif_Choose("mutatedField", 0, 5) {
 	case 0:
 		old := string(ad.ContextID)
@@ -189,6 +203,9 @@ func VerifC05_SignVerifyExtended() {
 func VerifC05_ExtendedSignerIdentity() {
 	k := c05newKey()
 	x := c05newKey()
+	if verif_Bool("extendedProviderHasHashedID") {
+		x = c05newHashedKey() // every key type: also identities that do not embed their key
+	}
 	z := c05newKey() // unrelated key
 	ad := c05extAd(k, []c05key{x}, verif_Choose("mainPosition", 0, 1))
 	wrongFor := verif_Choose("entrySignedByUnrelatedKey", 0, 1) // 0: x's entry, 1: main provider's entry
